@@ -1,9 +1,10 @@
 """C12 — delete removes exactly the addressed element, or nothing."""
 from pyvc.verify import Post, Case, Equiv
+from contracts import extra
 from contracts import common
 
 PROPERTY = 'C12'
-REF_MODULES = ['ref_mut', 'h_path', 'ref_extra', 'ref_core', 'ref_t']
+REF_MODULES = ['ref_mut', 'h_path', 'ref_extra', 'ref_core', 'ref_t', 'ref_registry']
 TS = ['len(S.__ops__) == 1', 'S.__ops__[0] is S', 'len(T.__ops__) == 1', 'T.__ops__[0] is T']
 
 
@@ -31,12 +32,16 @@ def contracts():
                     loops={1: dict(vars=[('val', 'ref')], ref_vars=[('val', 'ref')]),
                            2: dict(vars=[('func', 'ref')], ref_vars=[('func', 'ref')])}))
     cs.append(Equiv('mutation._del_sequence_item', 'ref_mut.del_seq_ref', args={'target': 'ref', 'idx': 'ref'}))
-    from contracts import extra
+    pass
     cs += common.shared(extra, ['mutation.Delete.__init__', 'mutation.delete', 'mutation._delete_autodiscover'])
     # the destination: the text is split into segments by Path.from_text and walked by _t_eval (wildcard expansion included)
     from contracts import C02
     cs += common.shared(C02, ['core._t_eval'])
     cs += common.shared(extra, ['core.Path.from_text', 'core.TType.__stars__'])
+    # how a destination Path is built from parts, and which handler the registry resolves (incl. after later registrations)
+    from contracts import C18, C13
+    cs += common.shared(C18, ['core.Path.__init__'])
+    cs += common.shared(C13, ['core.TargetRegistry.get_handler', 'core.TargetRegistry.get_type_map', 'core.TargetRegistry._get_closest_type', 'core.TargetRegistry.register'])
     return cs
 
 
